@@ -59,7 +59,7 @@ def main():
             if rc:
                 print("STORED PATCH NO LONGER APPLIES\n" + out)
                 return 2
-            newpatch = sh("git diff", cwd=wt)[1]
+            newpatch = sh("git add -A -N . && git diff", cwd=wt)[1]  # -N: new files are part of the diff
             raise StopIteration
         rc, out = sh(f"git apply --3way {patch} 2>&1 || git apply {patch}", cwd=wt)
         meta["ran"].append({"cmd": "git apply patch.diff (scratch worktree)", "rc": rc})
@@ -67,8 +67,8 @@ def main():
             print("PATCH DOES NOT APPLY\n" + out)
             return 2
         sh("git reset -q", cwd=wt)
-        # refresh the stored patch against the current HEAD
-        newpatch = sh("git diff", cwd=wt)[1]
+        # refresh the stored patch against the current HEAD (-N: files the change adds are part of the diff)
+        newpatch = sh("git add -A -N . && git diff", cwd=wt)[1]
         rc, out = sh("go build ./... && go vet ./... >/dev/null 2>&1; go build ./...", cwd=wt)
         meta["ran"].append({"cmd": "go build ./...", "rc": rc})
         if rc:
@@ -95,7 +95,8 @@ def main():
         if fails == 0:
             print("DEMO DOES NOT FAIL WITH CHANGE")
             ok = False
-        sh("git checkout -q -- .", cwd=wt)  # removes the patch, keeps the untracked demo (no git stash: the stash is shared by all worktrees)
+        # removes the patch (also the files it added), keeps the untracked demo (no git stash: the stash is shared by all worktrees)
+        sh("git diff --name-only --diff-filter=A | xargs -r rm -f; git reset -q; git checkout -q -- .", cwd=wt)
         passes = 0
         for i in range(3):
             rc, out = sh(cmd, cwd=wt)
